@@ -147,6 +147,7 @@ J gen_tunnel(uint64_t seed, const J &ov)
 		if (r.chance(0.6)) c.set("qtype", "");
 		else if (c.gets("qtype").empty()) c.set("qtype", TYPES[r.range(0, 6)]);
 		c.set("lat_up_us", (long long)r.range(100, 5000)); c.set("lat_dn_us", (long long)r.range(100, 5000));
+		if (r.chance(0.3)) { long long l = r.range(10000, 120000); c.set("lat_up_us", l + r.range(0, 5000)); c.set("lat_dn_us", l + r.range(0, 5000)); }    // a path as long as real ones: 20-250 ms round trip
 	}
 	if (mode == "clean" && dom.size() >= 12 && r.chance(0.06)) {
 		// a hostname limit too small for this domain (-M accepts 10..255 whatever the domain): the tunnel cannot carry anything
@@ -160,7 +161,18 @@ J gen_tunnel(uint64_t seed, const J &ov)
 	if (mode == "clean" || mode == "clean9") {
 		double W = 10 + r.uniform() * 25;
 		int maxlen = r.chance(0.8) ? 1200 : 4000;
-		if (mode == "clean" && r.chance(0.3)) {
+		if (mode == "clean" && r.chance(0.15)) {
+			// busy in both directions on a path with a realistic round trip: a stream of small packets down, multi-fragment packets up
+			J cl2 = cfg["clients"]; long long l = r.range(20000, 70000); cl2.a[0].set("lat_up_us", l); cl2.a[0].set("lat_dn_us", l + r.range(0, 3000)); cl2.a[0].set("raw", false); cfg.set("clients", cl2);
+			W = 8 + r.uniform() * 8;
+			double gd = 0.008 + r.uniform() * 0.03, gu = 0.1 + r.uniform() * 0.3;
+			for (double t = 0.3; t < W; t += gd) { J op = J::obj(); op.set("t", (long long)(t * 1e6)); op.set("op", "tun"); op.set("at", "srv"); op.set("ser", (long long)++ser); op.set("len", (int)r.range(44, 90)); op.set("body", "rnd"); op.set("dst", "c0"); op.set("src", "ext"); ops.push(op); }
+			for (double t = 0.35; t < W; t += gu) { J op = J::obj(); op.set("t", (long long)(t * 1e6)); op.set("op", "tun"); op.set("at", "c0"); op.set("ser", (long long)++ser); op.set("len", (int)r.range(60, 900)); op.set("body", "rnd"); op.set("dst", "srv"); op.set("src", "c0"); ops.push(op); }
+			cfg.set("busy_duplex", true);
+			cfg.set("dur_s", (int)(W + 45));
+			cfg.set("tmax_s", 600);
+			cfg.set("max_events", 3000000);
+		} else if (mode == "clean" && r.chance(0.3)) {
 			// a long steady flow in ONE direction only (a UDP stream, a download without acks): nothing but the programs' own
 			// keepalives crosses the other way for more than both 60 s timeouts
 			W = 70 + r.uniform() * 50;
